@@ -176,6 +176,22 @@ def dependent_axes(wcs, axis):
     return tuple(np.nonzero((world_dep & matrix).any(axis=0))[0])
 
 
+def world_axis_dependencies(wcs, axis):
+    """
+    Return a tuple of the pixel axes that a given world axis depends on.
+
+    Note that this is not the same as ``dependent_axes``, which returns the
+    pixel axes that are correlated with a given pixel axis.
+
+    The axis indices are given in numpy ordering convention (note that
+    opposite the fits convention)
+    """
+    if isinstance(wcs, LegacyCoordinates):
+        return (axis,)
+    matrix = wcs.axis_correlation_matrix[::-1, ::-1]
+    return tuple(np.nonzero(matrix[axis])[0])
+
+
 def _get_ndim(header):
     if 'NAXIS' in header:
         return header['NAXIS']
